@@ -52,7 +52,7 @@ _EFFECT = ["view", "parent", "other_collections", "other_parents", "is_wrapper",
            "subtree_shape_unchanged", "ir_of_unchanged_outside", "ir_of_subtree", "is_node", "stored",
            "subtree_same_ir", "root_ir", "parents", "target_ir_fixed", "elements_are_blocks", "not_pending",
            "events_add_all", "field_name", "value_kind", "unlinked", "linked", "is_list", "other_lists",
-           "is_module", "list_effect"]
+           "is_module", "list_effect", "ir_of_moved", "ir_of_unmoved"]
 _CACHE = ["wf_cache_I1", "wf_cache_I2", "uuids_typed", "uuids_distinct_where_attached", "subtree_registered",
           "old_entries_kept_or_overwritten_by_subtree", "new_entries_are_subtree", "exactly_subtree_removed",
           "other_entries_unchanged", *_RELM, "rel_interval", "rel_block", "rel_section", "rel_symbol",
@@ -87,8 +87,9 @@ def focus(clause):
     if clause == "callpre.uuids_distinct_where_attached":
         return _EFFECT + ["uuids_distinct_where_attached", "uuids_typed", "rel_block", "rel_interval", "rel_section",
                           "rel_symbol", "rel_proxy", *_RELM]
-    if clause in ("subtree_shape_unchanged", "ir_of_unchanged_outside", "ir_of_subtree"):
-        return _EFFECT
+    if clause in ("subtree_shape_unchanged", "ir_of_unchanged_outside", "ir_of_subtree", "ir_of_moved",
+                  "ir_of_unmoved"):
+        return _EFFECT + ["rel_block"]
     if clause in ("view", "parents", "parent", "other_collections", "other_parents", "target_ir_fixed"):
         return _EFFECT + ["rel_block", "rel_interval", "rel_section", "rel_symbol", "rel_proxy", *_RELM,
                           "wrappers_owned"]
